@@ -34,6 +34,19 @@ var nesters = []struct {
 func HostileHTML(r *rand.Rand, depth int) Hostile {
 	class := ""
 	var b strings.Builder
+	if r.Intn(10) == 0 {
+		// two or three different inline styles nested alternately a few hundred levels deep around a paragraph (2-3 KB): cheap as
+		// long as a style a cell already carries is not stacked again, whatever its position in the stack
+		set := [][]string{{"b", "i"}, {"u", "s", "code"}, {"em", "mark"}, {"del", "ins"}, {"b", "i", "u"}}[r.Intn(5)]
+		n := 250 + r.Intn(200)
+		for i := 0; i < n; i++ {
+			b.WriteString("<" + set[i%len(set)] + ">")
+		}
+		for i, k := 0, 30+r.Intn(40); i < k; i++ {
+			b.WriteString(words[r.Intn(len(words))] + " ")
+		}
+		return Hostile{Markup: "html", MediaType: "text/html", Text: b.String(), Class: "alternating-nest", Depth: 0}
+	}
 	if r.Intn(8) == 0 {
 		// one kind of indenting container nested far deeper than any terminal is wide (80..160 levels, about 2-3 KB)
 		k := []int{0, 1, 1, 4}[r.Intn(4)]
